@@ -9,7 +9,7 @@ from __future__ import annotations
 import ast
 import os
 from dataclasses import dataclass, field
-from typing import Dict, Iterator, List, Optional, Tuple
+from typing import Dict, Iterator, List, Optional, Set, Tuple
 
 PKG = "groupby_lib"
 
@@ -187,10 +187,49 @@ def _sub_bodies(st) -> Iterator[list]:
         yield h.body
 
 
+class _TrackingDict(dict):
+    """module table that remembers which modules were looked at (fixtures.py skips a rule on a diff that touches none of the
+    modules the rule consults; any bulk access counts as 'all')"""
+    def __init__(self):
+        super().__init__()
+        self.accessed: Set[str] = set()
+
+    def __getitem__(self, k):
+        self.accessed.add(k)
+        return super().__getitem__(k)
+
+    def get(self, k, default=None):
+        self.accessed.add(k)
+        return super().get(k, default)
+
+    def __contains__(self, k):
+        self.accessed.add(k)
+        return super().__contains__(k)
+
+    def _all(self):
+        self.accessed.update(super().keys())
+
+    def values(self):
+        self._all()
+        return super().values()
+
+    def items(self):
+        self._all()
+        return super().items()
+
+    def keys(self):
+        self._all()
+        return super().keys()
+
+    def __iter__(self):
+        self._all()
+        return super().__iter__()
+
+
 class Repo:
     def __init__(self, root: Optional[str] = None, overrides: Optional[Dict[str, str]] = None):
         self.root = root or repo_root()
-        self.modules: Dict[str, Module] = {}
+        self.modules: Dict[str, Module] = _TrackingDict()
         self.parsed_files: List[str] = []
         self.normalisation_notes: List[str] = []
         overrides = overrides or {}
